@@ -97,7 +97,7 @@ def gen(ctx):
         cases.append(["cf pre %d cmp f - %s %s" % (pre, h, hx(CR.enc(rs(20, 0.5))))])
         cases.append(["cf pre %d sort fc - %s" % (pre, " ".join(hx(CR.enc(rs(9, 0.3))) for _ in range(7)))])
         cases.append(["cf rep 50 pre %d up - 4 %s" % (pre, h)])
-    for reps in (2, 10, 1000 if quick else 100000):
+    for reps in (2, 10, 1000 if quick else 20000):
         cases.append(["cf rep %d up - 4 %s" % (reps, hx(CR.enc([0xDF, 0x61, 0xFB03] * 30)))])
         cases.append(["cf rep %d lo tr 4 %s" % (reps, hx(CR.enc([0x130, 0x49, 0x307] * 40)))])
         cases.append(["cf rep %d cmp f - %s %s" % (reps, hx(CR.enc([0xDF] * 50)), hx(CR.enc([0x53] * 100)))])
@@ -107,7 +107,7 @@ def gen(ctx):
 
 
 def run(ctx):
-    ctx.rules.append("a case = one call (or 2 / 10 / 1000 / 100000 repetitions of one call) of a scratch-using function - simple and "
+    ctx.rules.append("a case = one call (or 2 / 10 / 1000 / 20000 repetitions of one call) of a scratch-using function - simple and "
                      "full case mapping, capitalisation, comparison and sorting with fold / collate - in a fresh thread, on inputs of "
                      "0..2000 (thorough: 10000) code points with 0%, 10%, 50%, 100% expanding code points; observed: scratch position "
                      "before/after (zero-byte allocation), every size requested from gp_heap and every node freed during the call, "
